@@ -691,6 +691,16 @@ def replay(run: Run, path: str):
             print(f"{name}: constructor raised {type(e).__name__}: {e}")
             print("REPLAY FAILS")
             return 1
+        if "is_burn_in" in inp:       # a phase-test case of a personalisation algorithm
+            algo = make_algo(n_iter, n_burn=given, frac_=None, name=name)
+            bad = 0
+            for k in range(1, n_iter + 1):
+                algo.current_iteration = k
+                f = bool(algo._is_burn_in())
+                bad += f != (k <= given)
+                print(f"{name}: k={k} n_burn_in_iter={given} _is_burn_in()={f} expected={k <= given}")
+            print("REPLAY", "FAILS" if bad else "passes")
+            return 1 if bad else 0
         want = given if given is not None else int(fr * n_iter)
         print(f"{name}: n_iter={n_iter} count={given} fraction={fr}: n_burn_in_iter resolved to {got}, expected {want}")
         print("REPLAY", "FAILS" if got != want else "passes")
@@ -699,7 +709,9 @@ def replay(run: Run, path: str):
         # a real-fit configuration: re-run it with the recording wrappers and the order / counter oracles
         real_fit_schedule(run, False, only=(inp["kind"], int(inp["n_iter"]), int(inp["n_burn_in_iter"]),
                                             float(inp.get("burn_in_step_power", 0.8)), bool(inp["same_algorithm_object_run_twice"])))
-        bad = run.has_problem()
+        for f in run._fails:
+            print(f"{f['signature']}: {f['what']} -- {f['input']}")
+        bad = bool(run._fails)
         print("REPLAY", "FAILS" if bad else "passes")
         return 1 if bad else 0
     if not isinstance(inp, dict) or "n_burn_in_iter" not in inp:
